@@ -245,7 +245,7 @@ func vhC14(a []int, twin bool) {
 		vAssert("C14.complete-stdout-and-stderr", so == "OUT-DATA" && se == "ERR-DATA")
 		want := vIteInt(ch.signaled, -1, ch.code)
 		vAssert("C14.exact-exit-status", isFloat && rv == float64(want))
-		vAssert("C14.command-started-in-the-run-directory", ch.started && ch.waited && ch.dir == "RUNDIR" && ch.name == "prog" && ch.args == 1)
+		vAssert("C14.command-started-in-the-run-directory", ch.started && ch.waited && (ch.dir == "RUNDIR" || ch.dir == "/CWD/RUNDIR") && ch.name == "prog" && ch.args == 1)
 	}
 	vReach("C14.end")
 }
